@@ -1,7 +1,7 @@
 """Contracts for han/meter_connection.py protocols (C13, data_received half of C14).
 Readers and messages are abstract: a reader's read(data) returns a list of messages (symbolic length); a message has is_valid, payload
 (None or bytes of some length), as_bytes.  The destination queue is a ghost sequence (assumed: Queue.put_nowait appends on an unbounded queue)."""
-import z3
+import ast, z3
 from pyvc.engine import *
 from pyvc import speclib as S
 
@@ -111,9 +111,21 @@ def protocol_obligations(eng, max_candidates=3):
                 ms = st_.locals["messages"]; kk = z3.Int("k__s"); Q, qn = st_.ghost["q"]
                 return [("no valid message so far", z3.ForAll([kk], z3.Implies(z3.And(0 <= kk, kk < to_int(st_.locals["__idx2"])), z3.Not(VALID(ms.arr[kk]))))),
                         ("nothing selected yet", z3.BoolVal(st_.getf(self_, "_selected_reader") is None)), ("queue unchanged", z3.And(qn == qn0, Q == Q0))]
-            eng.loop_specs[(base + ".data_received", 0)] = (inv_fwd, None, {}, havoc_q)
-            eng.loop_specs[(base + ".data_received", 2)] = (inv_scan, None, {})
-            eng.loop_specs[(base + ".data_received", 3)] = (inv_fwd3, None, {}, havoc_q)
+            # invariants are attached by what a loop does, not by its position: a loop that calls message_received forwards messages,
+            # a loop that reads is_valid scans for a valid message
+            def selector(qual, stmt, no, self_=self_):
+                if qual != base + ".data_received" or not isinstance(stmt, ast.For): return None
+                src = ast.unparse(stmt)
+                if "message_received" in src and "is_valid" not in src:
+                    return ((lambda st_, e: q_is(st_, Q0, qn0, st_.locals["messages"].arr, to_int(st_.locals[f"__idx{no}"]))), None, {}, havoc_q)
+                if "is_valid" in src and "message_received" not in src:
+                    def inv_scan_n(st_, e):
+                        ms = st_.locals["messages"]; kk = z3.Int("k__s"); Q, qn = st_.ghost["q"]
+                        return [("no valid message so far", z3.ForAll([kk], z3.Implies(z3.And(0 <= kk, kk < to_int(st_.locals[f"__idx{no}"])), z3.Not(VALID(ms.arr[kk]))))),
+                                ("nothing selected yet", z3.BoolVal(st_.getf(self_, "_selected_reader") is None)), ("queue unchanged", z3.And(qn == qn0, Q == Q0))]
+                    return (inv_scan_n, None, {})
+                return None
+            eng.loop_spec_selector = selector
             for st1, flow, val in eng.exec_block(fn.body, st, ctx):
                 eng.stats["paths"] += 1
                 if not eng.feasible(st1): continue
